@@ -27,19 +27,29 @@ func (a Message) Compare(b Message) int {
 }
 
 func ParseMessageExpression(rawExpression string) Message {
-	// result
-	expression := rawExpression
 	var variables []string
 
 	// find variables
 	re := regexp.MustCompile(`\{\{\s*([\w-]+\.[\w-]+)\s*}}`)
-	for _, v := range re.FindAllStringSubmatch(rawExpression, -1) {
-		expression = strings.ReplaceAll(expression, v[0], "%v") // replace variable by template string variable
-		variables = append(variables, v[1])
+	matches := re.FindAllStringSubmatchIndex(rawExpression, -1)
+	if len(matches) == 0 {
+		// no variables: the text is used as it is, not as a format string
+		return Message{rawExpression, variables}
 	}
 
+	// the text becomes a format string: literal percent signs are escaped, each variable becomes %v
+	var expression strings.Builder
+	last := 0
+	for _, m := range matches {
+		expression.WriteString(strings.ReplaceAll(rawExpression[last:m[0]], "%", "%%"))
+		expression.WriteString("%v") // replace variable by template string variable
+		variables = append(variables, rawExpression[m[2]:m[3]])
+		last = m[1]
+	}
+	expression.WriteString(strings.ReplaceAll(rawExpression[last:], "%", "%%"))
+
 	return Message{
-		expression,
+		expression.String(),
 		variables,
 	}
 }
